@@ -171,6 +171,13 @@ def handle (toks : List String) : Option String :=
             | .ok o => toString (optsNormal o)
             | .error _ => "err"
           toString (normalCpt g r c) ++ " " ++ on ++ " " ++ toString (grammarWF g)
+  | ["c06.optsnormal", h] => some <|
+      -- is the option table denoted by this string in the normal form of `opts_format_parse`?
+      match dec h with
+      | none => "bad-op"
+      | some s => match optsParse s with
+        | .error _ => "err"
+        | .ok o => toString (optsNormal o)
   | ["c06.opts", h] => some <|
       match dec h with
       | none => "bad-op"
